@@ -552,7 +552,7 @@ func (db *Database) performFuzzySearch(query string, options SearchOptions) []Se
 	}
 
 	// Perform fuzzy search
-	matches := fuzzy.Find(query, targets)
+	matches := fuzzyFind(query, targets)
 
 	currentPlatform := getCurrentPlatform()
 
@@ -590,6 +590,18 @@ func (db *Database) performFuzzySearch(query string, options SearchOptions) []Se
 	}
 
 	return results
+}
+
+// fuzzyFind runs the fuzzy matcher on targets made free of NUL characters: sahilm/fuzzy takes a
+// NUL inside a target for the end of the string and then indexes its pattern out of range
+// (panic). The targets are sanitised in place; a NUL becomes a space.
+func fuzzyFind(pattern string, targets []string) fuzzy.Matches {
+	for i, t := range targets {
+		if strings.IndexByte(t, 0) >= 0 {
+			targets[i] = strings.ReplaceAll(t, "\x00", " ")
+		}
+	}
+	return fuzzy.Find(pattern, targets)
 }
 
 // passesFilters reports whether a command may be returned under the platform and pipeline
@@ -722,7 +734,7 @@ func (db *Database) GetSuggestions(query string, maxSuggestions int) []string {
 	}
 
 	// Find fuzzy matches for the query
-	matches := fuzzy.Find(query, words)
+	matches := fuzzyFind(query, words)
 
 	var suggestions []string
 	for i, match := range matches {
